@@ -34,11 +34,14 @@ VARIANTS = {
             # what the host's int() tolerates but the language does not: signs, blanks, underscores, prefixes
             "0x-1", "0x+f", "0b-1", "0b+1", "0x 1", "0x1_", "0b1_", "0b_1", "0x0x1", "0b0b1", "0x", "0b", "0b2", "0xg",
             "1e5", "0x1.8", "0b1.1", "١٢", "0x١",
+            # characters str.isdigit() accepts but int() / float() do not, and the like for other predicates
+            "1²", "²", "1③", "1\u00a02", "1\u2028", "x²", "é1", "1é",
             "9" * 5000, "0x" + "f" * 5000, "0b" + "1" * 20000],
-    "decimal": ["0.5", "1_0.2_5", "1.", "1_.5", "1._5", "1.5e3", "1.e3", "1.5_", "1.-5", "1.+5", "1.٥", "1.5.5", "1.inf", "1.nan", "1." + "0" * 400, "9" * 400 + ".5"],
+    "decimal": ["0.5", "1_0.2_5", "1.", "1_.5", "1._5", "1.5e3", "1.e3", "1.5_", "1.-5", "1.+5", "1.٥", "1.5.5", "1.inf", "1.nan", "1.²", "2.5¹", "1.③", "1.\u00a05", "².5", "1." + "0" * 400, "9" * 400 + ".5"],
     "string": ["''", '"a\\"b"', "'x\\ny'", '"\\x41"', "'{x}'", "'l1\nl2'",
                # \x escapes: exactly two hex digits; int() would also take signs, blanks and underscores
                '"\\x-1"', "'\\x-f'", '"\\x+1"', "'\\x 1'", '"\\x_1"', "'\\x1_'", '"\\x1"', "'\\x'", '"\\xg1"', "'\\x1g'",
+               "'a\\n'", "'\\n'", "' '", "'a\n'", "'a\n  b\n'", "'\n'", '"f(x)\n"', "'  a\n b'", "'\t'",
                '"ab\\x-7cd"', "'\\x0x'", '"\\x١١"', "'\\u0041'", '"\\q"', "'\\'", '"\\x4'],
     "boolean": ["FALSE"],
     "pattern": ["//[//", "//(//", "//*//", "//a|b//", "///", "//a{99999999999999999999}//",
@@ -244,7 +247,10 @@ FRAMES = ["{A} ; {B}", "( {A} )", "[ {A} , {B} ]", "f ( {A} , {B} )", "do {A} ; 
           "<* x = {A} , y ( a ) {B} *>", "{A} and not {B} or {A}", "- {A} * + {B}", "require {A} import [ x as y ]",
           "def class x do def y = {A} ; def z ( ) {B} end", "{A} ( {B} ) ( {A} )", "def [ x , y ] = {A}",
           "for [ x , y ] in entries {A} {B}", "x += {A}", "x [ {A} ] %= {B}", "x -> y /= {A}", "... {A}", "f ( ... {A} , x = {B} )",
-          "return ; {A}", "{A} ; return ;", "fn ( ) return ;", "do {A} ; return ; end"]
+          "return ; {A}", "{A} ; return ;", "fn ( ) return ;", "do {A} ; return ; end",
+          # a string in front of `def` is the definition's doc comment (handled at parse time)
+          "'s' def x = {A}", "'s' def f ( x ) {A}", "{A} ; 's' def f ( ) do {B} end", "do 's' def x = {A} ; {B} end",
+          "'s' def [ x , y ] = {A}", "'s' def class x do 's' def y = {A} end", "'s' 's' def x = {A}", "'s' {A}"]
 
 
 # every binding construct with a protected (`checkerlang_`) name: the guards in the node constructors run at
@@ -299,8 +305,8 @@ def run(run):
     rng = random.Random(run.seed)
     n_cases = 0
     # -- scanner noise
-    lcfgs = ["Lexer_K1", "Lexer_K2", "Lexer_K3", "Lexer_K4"] if quick else \
-            ["Lexer_K1t", "Lexer_K2t", "Lexer_K3t", "Lexer_K4t"]
+    lcfgs = ["Lexer_K1", "Lexer_K2", "Lexer_K3", "Lexer_K4", "Lexer_K5"] if quick else \
+            ["Lexer_K1t", "Lexer_K2t", "Lexer_K3t", "Lexer_K4t", "Lexer_K5t"]
     ltexts = lexer_phase(run, lcfgs + ["Lexer_struct"])
     run.sample({"noise": [repr(t) for t in list(ltexts)[1000:1004]]})
     for text, res in classify_all(ltexts):
